@@ -231,7 +231,10 @@ def r8_2(repo: Repo) -> RuleResult:
             near = _nearest_def(f, size, lp, pm)
             verdict = near if near is not None else (verdict[-1] if verdict else (None, "no definition"))
         ok, why = verdict
-        if part_ok is False:
+        nest_problem = _nested_offset_problem(f, lp, starts[0] if starts else None, size, pm)
+        if nest_problem:
+            rr.bad(f, construct, nest_problem, lp.lineno)
+        elif part_ok is False:
             rr.bad(f, construct, "block bounds are not start = %s*%s, end = min(n, start + %s): blocks overlap or leave gaps" % (i, size, size), lp.lineno)
         elif ok is False:
             rr.bad(f, construct, "the block size divides (`// %s`) but is not guarded to be >= 1: %s - a small memory_size makes transform raise "
@@ -239,6 +242,80 @@ def r8_2(repo: Repo) -> RuleResult:
         else:
             rr.ok(f, construct, "%s; size %s" % ("partition start=i*B, end=min(n, start+B)" if part_ok else "cursor-driven blocks", why), lp.lineno,
                   nontrivial=ok is not None)
+    return rr
+
+
+def _nested_offset_problem(f: Func, lp: ast.For, start_stmt: Optional[ast.Assign], size: str, pm) -> Optional[str]:
+    """A chunk loop nested in a block loop slices either the whole array - then its positions must be absolute
+    (chunk start = block start + j * B) - or the block itself - then they must be block-relative.  Mixing the two
+    reads the rows of the first block again for every later block."""
+    if start_stmt is None:
+        return None
+    outer = None
+    for a in ancestors(lp, pm):
+        if isinstance(a, ast.For) and isinstance(a.target, ast.Name):
+            o_i = a.target.id
+            for st in a.body:
+                if isinstance(st, ast.Assign) and isinstance(st.targets[0], ast.Name):
+                    for m, c in sym.poly(st.value).items():
+                        if c == 1 and len(m) == 2 and o_i in m:
+                            outer = (a, st.targets[0].id)
+            if outer:
+                break
+    if outer is None:
+        return None
+    o_loop, o_start = outer
+    j = lp.target.id
+    cs = start_stmt.targets[0].id
+    p = sym.poly(start_stmt.value)
+    base = {k: v for k, v in p.items() if not (len(k) == 2 and j in k)}
+    absolute = base == sym.poly(ast.Name(id=o_start, ctx=ast.Load()))
+    relative = base == {}
+    if not (absolute or relative):
+        return None
+    # arrays sliced with the chunk start inside the chunk loop
+    assigned_in_outer = set()
+    for st in ast.walk(o_loop):
+        if isinstance(st, ast.Assign):
+            for t in st.targets:
+                for x in ast.walk(t):
+                    if isinstance(x, ast.Name):
+                        assigned_in_outer.add(x.id)
+    for n in ast.walk(lp):
+        if isinstance(n, ast.Subscript) and isinstance(n.slice, ast.Slice) and n.slice.lower is not None and norm(n.slice.lower) == cs:
+            root = n.value
+            while isinstance(root, (ast.Subscript, ast.Attribute, ast.Call)):
+                root = root.value if not isinstance(root, ast.Call) else root.func
+            if not isinstance(root, ast.Name):
+                continue
+            whole = root.id not in assigned_in_outer  # the array exists before the block loop: whole-array coordinates
+            if whole and relative:
+                return ("`%s` slices the whole array `%s` with the block-relative chunk start `%s = %s`: the offset of the enclosing block "
+                        "(`%s`) is lost, so every block after the first re-reads the rows of the first block" % (short(n, 40), root.id, cs, norm(start_stmt.value), o_start))
+            if not whole and absolute:
+                return ("`%s` slices the per-block array `%s` with the absolute chunk start `%s = %s`: positions run past the block"
+                        % (short(n, 40), root.id, cs, norm(start_stmt.value)))
+    return None
+
+
+def nested_offsets(repo: Repo, rule: str) -> RuleResult:
+    """The nested-chunk clause of R8.2 as a rule of its own (used by C12: which rows a chunk reads must not depend on
+    the block it sits in beyond that block's offset)."""
+    rr = RuleResult(rule, "a chunk loop nested in a block loop addresses the whole array absolutely (block start + j * B) or the block relatively", floor=2)
+    for f, lp, count, size, div, extent, cands in _block_loops(repo):
+        pm = parents_map(f.node)
+        if not any(isinstance(a, ast.For) for a in ancestors(lp, pm)):
+            continue
+        i = norm(lp.target)
+        starts = [s_ for s_ in lp.body if isinstance(s_, ast.Assign) and isinstance(s_.targets[0], ast.Name) and _is_scaled(s_.value, i, size)]
+        if not starts:
+            continue
+        problem = _nested_offset_problem(f, lp, starts[0], size, pm)
+        construct = "nested chunk loop `for %s in range(%s)`" % (i, count)
+        if problem:
+            rr.bad(f, construct, problem, lp.lineno)
+        else:
+            rr.ok(f, construct, "`%s = %s`" % (starts[0].targets[0].id, norm(starts[0].value)), lp.lineno)
     return rr
 
 
